@@ -169,6 +169,49 @@ func init() {
 			vsched.AwaitQuiescence()
 		}, sp
 	}})
+	// QErestart: the service is shut down while a query event is active and served again before the event
+	// expires; a second query event is started in the second epoch.
+	reg(&Scenario{Name: "QErestart", Make: func(cfg Cfg) (func(), *Spec) {
+		qs := &QSpec{CB: "model", Requests: map[string]string{}, Events: 2, Shutdown: true}
+		sp := &Spec{Closes: 1, Shutdown: true, Query: qs}
+		return func() {
+			q := newQWorld(cfg)
+			sdone := make(chan struct{}, 2)
+			q.StartServe(sdone)
+			q.S.With("t.q", func(r res.Resource) {
+				q.CB("start0", r.Group(), "g")
+				r.QueryEvent(q.qcb("model", 0))
+			})
+			vsched.Recv(q.subj)
+			shutdown(q.World)
+			vsched.Recv(sdone)
+			vsched.Emit(Mon, "epoch2")
+			q.StartServe(sdone)
+			nil1 := make(chan struct{}, 1)
+			q.S.With("t.q", func(r res.Resource) {
+				q.CB("start1", r.Group(), "g")
+				cb := q.qcb("model", 1)
+				r.QueryEvent(func(qr res.QueryRequest) {
+					cb(qr)
+					if qr == nil {
+						vsched.Send(nil1, struct{}{})
+					}
+				})
+			})
+			vsched.Recv(q.subj)
+			// the second event ends with its nil call (the service is running); what is left of the first
+			// event gets two further full durations after the final Shutdown
+			vsched.Recv(nil1)
+			vsched.AwaitQuiescence()
+			shutdown(q.World)
+			vsched.Recv(sdone)
+			vsched.Sleep(3 * qDuration)
+			vsched.AwaitQuiescence()
+			vsched.Sleep(3 * qDuration)
+			vsched.AwaitQuiescence()
+		}, sp
+	}})
+
 	// QEshutdownBusy: the query event expires while Shutdown is waiting for a callback of the same group.
 	reg(&Scenario{Name: "QEshutdownBusy", Make: func(cfg Cfg) (func(), *Spec) {
 		qs := &QSpec{CB: "model", Requests: map[string]string{}, Events: 1, Shutdown: true}
